@@ -17,6 +17,7 @@ import (
 type C12Asm interface {
 	Assemble(net gopacket.Flow, t *layers.TCP, ts time.Time)
 	FlushT(t time.Time) (int, int)
+	FlushClose(t time.Time) (int, int)
 	FlushAll() int
 }
 
@@ -227,18 +228,23 @@ func RunC12(c *sim.Ctx, pkg *C12Pkg) {
 		nfl := 1 + c.Draw(3)
 		cut := make([]int64, nfl)
 		all := make([]bool, nfl)
+		closing := make([]bool, nfl)
 		for i := range cut {
 			cut[i] = int64(c.Draw(int(t/1000)+2)) * 1000
 			all[i] = c.Chance(150)
+			closing[i] = c.Chance(300)
 		}
 		c.Fault("concurrent_flusher")
 		s.Go("flusher", func(w *coop.W) {
 			for i := range cut {
 				w.Rec("call_enter", int64(i), cut[i], b2i(all[i]), "flush", nil)
 				w.Yield(siteCallStart)
-				if all[i] {
+				switch {
+				case all[i]:
 					fa.FlushAll()
-				} else {
+				case closing[i]:
+					fa.FlushClose(T(cut[i]))
+				default:
 					fa.FlushT(T(cut[i]))
 				}
 				w.Rec("call_exit", int64(i), 0, 0, "flush", nil)
